@@ -284,8 +284,8 @@ def check_destroy(rep, db, f, inst, vals):
         # R-C14-fresh
         clears = {fmt(e.c) for e in evs if e.kind == "CALL" and q.short(e.a) == "clear" and e.c is not None}
         rec = db.rec_by_id.get(f.get("rid")) or {}
-        conts = [fl["n"] for fl in rec.get("fields", []) if fl["n"] in ("callback_keys", "func_ptr_map", "internal_func_ptr_map") or
-                 (fl["n"].endswith("_map") and "std::map" in ((fl["t"] or {}).get("c") or "") and fl["n"] != "app_ptr_map")]
+        # every per-object standard container (by TYPE): the registered keys and the symbol caches; the app-pointer table is C15's
+        conts = [fl["n"] for fl in rec.get("fields", []) if ((fl["t"] or {}).get("c") or "").startswith(("std::vector<", "std::map<", "std::unordered_map<", "std::set<", "std::list<", "std::deque<"))]
         if "callback_keys" not in conts:
             rep.require(False, "anchor field callback_keys not found in rlbox_sandbox")
         for cont in conts:
